@@ -1,4 +1,6 @@
 """C01 – COLRv1 glyph paints the same picture as its source SVG."""
+import math
+
 from hypothesis import strategies as st
 
 from .. import build
@@ -221,9 +223,95 @@ def far_reuse_case(draw, formats, tier, tolerances=None):
     return {"cfg": cfg, "sources": sources}
 
 
+@st.composite
+def paint_variants_case(draw, formats, tier, tolerances=None):
+    """One base gradient and 1-3 near-duplicates of it on different shapes of one glyph (sometimes spread over two glyphs that
+    share an outline, hence one OT-SVG document): each duplicate differs from the base in exactly one respect - the tilt or
+    squash of an elliptical gradientTransform about the gradient's centre or about the user-space origin, the spread method,
+    one stop colour, one stop opacity, the radius / end point. Whatever an encoder remembers about a gradient it has
+    already written (ids in a document, palette entries, colour lines) must tell these apart."""
+    from ..gen_svg import cmds_bbox, placement, stops_st, transform_cmds, unit_shape, view_box
+    from ..geom import achain, rotate, scale, translate
+
+    cfg = draw(font_config(formats, transforms=False, max_upem=4096))
+    if tolerances is not None:
+        cfg["reuse_tolerance"] = draw(st.sampled_from(tolerances))
+    vb = draw(view_box())
+    ext = max(vb[2], vb[3])
+    anchor = draw(st.sampled_from(["origin", "centre", "y0", "free"]))
+    if anchor == "origin":
+        cx, cy = 0.0, 0.0
+    elif anchor == "centre":
+        cx, cy = vb[0] + vb[2] / 2, vb[1] + vb[3] / 2
+    elif anchor == "y0":
+        cx, cy = round(vb[0] + draw(st.floats(0.2, 0.8)) * vb[2], 3), 0.0
+    else:
+        cx, cy = round(vb[0] + draw(st.floats(0.1, 0.9)) * vb[2], 3), round(vb[1] + draw(st.floats(0.1, 0.9)) * vb[3], 3)
+    far = math.hypot(max(abs(vb[0] - cx), abs(vb[0] + vb[2] - cx)), max(abs(vb[1] - cy), abs(vb[1] + vb[3] - cy)))
+    stops = draw(stops_st({}))
+    spread = draw(st.sampled_from(["pad", "reflect", "repeat"]))
+    if draw(st.sampled_from([True, True, False])):
+        base = {"k": "rad", "units": "user", "spread": spread, "stops": stops, "cx": cx, "cy": cy, "r": round(far * draw(st.floats(0.5, 1.1)), 3),
+                "fx": cx, "fy": cy, "fr": 0.0, "gt": None}
+    else:
+        ang = draw(st.floats(0, 2 * math.pi))
+        ln = far * draw(st.floats(0.4, 1.0))
+        base = {"k": "lin", "units": "user", "spread": spread, "stops": stops, "x1": cx, "y1": cy,
+                "x2": round(cx + ln * math.cos(ang), 3), "y2": round(cy + ln * math.sin(ang), 3), "gt": None}
+
+    def about(m, px, py):
+        return [round(v, 6) for v in achain(translate(-px, -py), m, translate(px, py))]
+
+    def variant(kind):
+        p = dict(base, stops=[list(x) for x in base["stops"]])
+        sy = draw(st.sampled_from([0.4, 0.5, 0.6, 0.75]))
+        th = float(draw(st.sampled_from([20, 45, 70, 110, -30])))
+        if kind == "tilt":
+            p["gt"] = about(achain(scale(1.0, sy), rotate(th)), cx, cy)
+        elif kind == "squash":
+            p["gt"] = about(scale(1.0, sy), cx, cy)
+        elif kind == "squash_x":
+            p["gt"] = about(scale(sy, 1.0), cx, cy)
+        elif kind == "origin_linear":
+            p["gt"] = [round(v, 6) for v in achain(scale(1.0, sy), rotate(th))]
+        elif kind == "spread":
+            p["spread"] = {"pad": "reflect", "reflect": "repeat", "repeat": "pad"}[p["spread"]]
+        elif kind == "stop_color":
+            p["stops"][draw(st.integers(0, len(p["stops"]) - 1))][1] = "#%06x" % draw(st.integers(0, 0xFFFFFF))
+        elif kind == "stop_opacity":
+            j = draw(st.integers(0, len(p["stops"]) - 1))
+            p["stops"][j][2] = 0.35 if p["stops"][j][2] > 0.6 else 1.0
+        elif kind == "size":
+            if p["k"] == "rad":
+                p["r"] = round(p["r"] * 1.3, 3)
+            else:
+                p["x2"], p["y2"] = round(cx + (p["x2"] - cx) * 1.3, 3), round(cy + (p["y2"] - cy) * 1.3, 3)
+        return p
+
+    kinds = ["base"] + draw(st.lists(st.sampled_from(["tilt", "tilt", "squash", "squash", "squash_x", "origin_linear", "spread", "stop_color", "stop_opacity", "size"]), min_size=1, max_size=3))
+    if draw(st.booleans()):
+        kinds[0] = draw(st.sampled_from(["tilt", "squash"]))  # the first one written is elliptical too
+    order = draw(st.permutations(kinds))
+    shared = draw(unit_shape(("polygon", "cubic", "rect")))
+    nodes = []
+    for k in order:
+        unit = shared if draw(st.sampled_from([False, False, True])) else draw(unit_shape(("polygon", "cubic", "quad", "rect", "ellipse")))
+        _, m = draw(placement(vb, "translate", size=draw(st.floats(0.1, 0.3)) * min(vb[2], vb[3])))
+        nodes.append({"t": "p", "d": transform_cmds(unit, m), "fill": variant(k) if k != "base" else dict(base), "op": 1.0, "tag": "variant:" + k})
+    if len(nodes) >= 3 and draw(st.booleans()):
+        # two glyphs; a copy of the shared outline in each keeps them in one OT-SVG document
+        _, m1 = draw(placement(vb, "translate", size=0.12 * min(vb[2], vb[3])))
+        _, m2 = draw(placement(vb, "translate", size=0.12 * min(vb[2], vb[3])))
+        link = lambda m: {"t": "p", "d": transform_cmds(shared, m), "fill": {"k": "solid", "c": "#336699"}, "op": 1.0, "tag": "lib0:translate"}
+        sources = [{"model": {"vb": vb, "nodes": [link(m1)] + nodes[:2]}, "cps": [0xE000]}, {"model": {"vb": vb, "nodes": nodes[2:] + [link(m2)]}, "cps": [0xE001]}]
+    else:
+        sources = [{"model": {"vb": vb, "nodes": nodes}, "cps": [0xE000]}]
+    return {"cfg": cfg, "sources": sources}
+
+
 def cases(tier):
     return st.one_of(vector_case(FORMATS, tier), vector_case(FORMATS, tier), vector_case(FORMATS, tier), vector_case(FORMATS, tier), grid_case(FORMATS, tier), prefix_pair_case(FORMATS, tier),
-                     far_reuse_case(FORMATS, tier), far_reuse_case(FORMATS, tier))
+                     far_reuse_case(FORMATS, tier), far_reuse_case(FORMATS, tier), paint_variants_case(FORMATS, tier))
 
 
 def shrink(case):
